@@ -22,6 +22,8 @@ W_REM = "rem on top of div/trunc/mul/sub transcriptions on all valid pairs: trun
 W_NOV = "the exponent-field algorithm of no_overlap against Definition 1.4 on EVERY pair of words of the format (zeros, subnormals, infinities, NaN)"
 W_FRAC = "the case splits of floor/ceil/trunc/round/fract against the exact functions on every valid value in a window wide enough for the fraction to live in hi, in lo, in both, nowhere"
 W_WIDE = "the wide-integer From macro (with the renormalisation fix) on EVERY integer of an unsigned and a signed type wider than 2P bits: valid, exact when <= 2P significant bits, else within 2^-2P"
+W_EXPFLOW = "the exp reduction x = y/2 + z with the real double-double operations (y = round of the full value, z = x - y/2): the |z.hi| <= 1/4 assertion, the table index |n| <= 32, the Taylor argument bound and exactness of the split, for EVERY valid x of the window (both signs)"
+W_QUAD = "quadrant(): quotient round(x / (pi/2)) is an integer, `quotient % 4.0` -> i8 never reaches the NAN arm and equals q mod 4, for every valid x of the window (both signs)"
 W_CMP = "lexicographic comparison of normalised pairs == comparison of exact values, abs, on all valid pairs of a window"
 
 PLAN = {
@@ -116,6 +118,7 @@ PLAN = {
     "C14": {
         "level": "exploration",
         "rule": RULE_TRACE + "; exp/exp2/exp_m1/powf against rigorous ball enclosures (Taylor series with explicit remainder, argument reduction with an enclosure of ln 2) computed in TLA+; stratified over every entry of the exp(n/128)-1, exp(1/2)^n, exp(16)^n tables and both sides of each range switch",
+        "models": [MC("MC_P4_expflow.cfg", W_EXPFLOW), MC("MC_P5_expflow.cfg", W_EXPFLOW, "thorough")],
         "traces": [T("exps", (140, 4000), (14, 14))],
     },
     "C15": {
@@ -126,6 +129,7 @@ PLAN = {
     "C16": {
         "level": "exploration",
         "rule": RULE_TRACE + "; sin/cos against ball enclosures (reduction with an enclosure of pi/2, Taylor series with remainder), tan cross-multiplied by cos^2",
+        "models": [MC("MC_P4_quadrant.cfg", W_QUAD), MC("MC_P5_quadrant.cfg", W_QUAD, "thorough")],
         "traces": [T("trig", (100, 3000), (14, 14))],
     },
     "C17": {
